@@ -263,3 +263,40 @@ theorem buyback_spec {s s' : St} {c lp : Nat} {w : Want} {o : Out}
   exact ⟨s2, h1, h2, g1, rfl, g2, g4, g5, g7, h3, feeSlice_spec hf1, feeSlice_spec hf2⟩
 
 end Mx.Pair
+
+namespace Mx.Pair
+
+/-- the fee-routing step of a fixed-input swap, kept as an equation (used when the fee is 0) -/
+theorem swapIn_sendFee {s s' : St} {d : Dir} {a minOut : Nat} {o : Out}
+    (h : swapIn s d a minOut = some (s', o)) :
+    ∃ s3, (swapMid s d a (swapFee s a) o.v1).sendFee d (swapFee s a) = some s3 ∧
+      s' = s3.setBal d (s3.balIn d) (s3.balOut d - o.v1) := by
+  simp only [swapIn, Option.bind_eq_bind, Option.bind_eq_some_iff, req_eq_some, sub?_eq_some,
+    St.debitOut, Option.pure_def, Option.some.injEq, Prod.mk.injEq] at h
+  obtain ⟨_, h1, _, h2, _, h3, _, h4, _, h5, _, h6, _, h7, aAfter, ⟨h8, rfl⟩, _, h9, s3, h10,
+    s4, ⟨b, ⟨h11, rfl⟩, rfl⟩, rfl, rfl⟩ := h
+  exact ⟨s3, h10, rfl⟩
+
+end Mx.Pair
+
+namespace Mx.Pair
+
+/-! projections of the intermediate swap state and of the final payout, direction-generic -/
+theorem swapMid_rin (s : St) (d : Dir) (c f o : Nat) : (swapMid s d c f o).rin d = s.rin d + (c - f) := by
+  cases d <;> rfl
+theorem swapMid_rout (s : St) (d : Dir) (c f o : Nat) : (swapMid s d c f o).rout d = s.rout d - o := by
+  cases d <;> rfl
+theorem swapMid_balIn (s : St) (d : Dir) (c f o : Nat) : (swapMid s d c f o).balIn d = s.balIn d + c := by
+  cases d <;> rfl
+theorem swapMid_balOut (s : St) (d : Dir) (c f o : Nat) : (swapMid s d c f o).balOut d = s.balOut d := by
+  cases d <;> rfl
+theorem setBal_rin (s : St) (d : Dir) (a b : Nat) : (s.setBal d a b).rin d = s.rin d := by
+  cases d <;> rfl
+theorem setBal_rout (s : St) (d : Dir) (a b : Nat) : (s.setBal d a b).rout d = s.rout d := by
+  cases d <;> rfl
+theorem setBal_balIn (s : St) (d : Dir) (a b : Nat) : (s.setBal d a b).balIn d = a := by
+  cases d <;> rfl
+theorem setBal_balOut (s : St) (d : Dir) (a b : Nat) : (s.setBal d a b).balOut d = b := by
+  cases d <;> rfl
+
+end Mx.Pair
